@@ -5,7 +5,7 @@ VERIF = os.path.dirname(os.path.dirname(os.path.abspath(__file__)))
 REPO = os.environ.get('WOWM_REPO', '/repo')
 BUILD = os.environ.get('VERIF_BUILD', os.path.join(VERIF, '.build'))
 HARNESS = os.environ.get('VERIF_HARNESS', os.path.join(VERIF, 'harness'))
-EVIDENCE = os.path.join(VERIF, 'evidence')
+EVIDENCE = os.environ.get('VERIF_EVIDENCE', os.path.join(VERIF, 'evidence'))   # experiments on scratch copies write elsewhere
 REPLAYS = os.path.join(EVIDENCE, 'replays')
 NCPU = os.cpu_count() or 4
 
